@@ -24,7 +24,7 @@ META = {
     "note": "trusted: seeding operators and their expected (severity, line set, identifier); wording of messages is not compared; accepted lines per class were fixed after reviewing the pinned tree by hand (e.g. 'USE after IMPLICIT' is reported on the IMPLICIT line, an unclosed block on its opening line)",
 }
 RULE = ("valid: generated workspaces x styles, all files; intrinsic sweep: every (module, member) of intrinsic.modules.json; seeded: program x class x position "
-        "with classes dup-decl, mask-host, open-block-at-bare-end, unknown-module, type-not-accessible, dummy-undeclared, intent-not-arg, second-contains, "
+        "with classes dup-decl, mask-host, open-block-at-bare-end, unknown-module, type-not-accessible, dummy-undeclared (also with IMPLICIT NONE only inherited from 1 or 2 hosts up), intent-not-arg, second-contains, "
         "outside-scope x{contains, implicit, public, private}, import-outside-interface, use-after-implicit, proc-before-contains, proc-in-type, proc-in-block, "
         "deferred-unimplemented, long-line; evaluations = diagnostics passes judged; distinct = (program, class, position)")
 ASSUME = ["seeded programs need not be valid Fortran otherwise", "message wording is free"]
@@ -108,6 +108,17 @@ def positions(w, rng, limit):
                     dl = [ln for ln, r, sc in roles if r == "decl" and sc is s and re.search(rf"::\s*{re.escape(a.name)}\s*$", lines[ln], re.I)]
                     if dl and a.file == f:
                         out.append(("dummy-undeclared", f, (lambda lines=lines, dl=dl[0], nm=a.name, s=s: (lines[:dl] + lines[dl + 1:], {"sev": 1, "lines": {s.sline}, "word": nm}))))
+                        # 6b the same with IMPLICIT NONE only inherited: the statement is removed from the procedure and from every host procedure,
+                        # it stays in the enclosing module/program (1 level for module procedures, 2 for internal procedures)
+                        hosts, h = [], s
+                        while h is not None and h.kind in ("sub", "fun"):
+                            hosts.append(h)
+                            h = h.parent
+                        if h is not None and scope_lines(w, f, h, "implicit") and all(scope_lines(w, f, x, "implicit") for x in hosts) and all(x.file == f for x in hosts):
+                            drop = sorted({dl[0]} | {scope_lines(w, f, x, "implicit")[0] for x in hosts})
+                            shift = sum(1 for d in drop if d < s.sline)
+                            out.append(("dummy-undeclared-inherited-implicit", f, (lambda lines=lines, drop=drop, nm=a.name, s=s, shift=shift: (
+                                [l for n, l in enumerate(lines) if n not in drop], {"sev": 1, "lines": {s.sline - shift}, "word": nm, "depth": 0}))))
                 # 7 intent not in argument list
                 out.append(("intent-not-arg", f, (lambda lines=lines, il=il, pad=pad: (ins(lines, il + 1, [f"{pad}integer, intent(in) :: zz_na"]), {"sev": 1, "lines": {il + 1}, "word": "zz_na"}))))
                 # 10 import outside interface (placed before IMPLICIT so that no USE-order companion arises)
